@@ -252,3 +252,11 @@ def extra_evidence(check):
     st.pop("outs", None)
     gi = getattr(check, "gen_info", {}) or {}
     return {"totals": _STATS.get("totals"), "selftest_droplast": st, "translator": gi.get("tracefields")}
+
+
+def log_equiv(line, plain, logged):
+    """`calls=` counts every sink call, the read-only `elem_name` queries of the library's debug! statements included"""
+    import re
+    from vlib import default_log_equiv
+    strip = lambda x: re.sub(r"calls=\d+", "calls=_", x or "")
+    return default_log_equiv(line, strip(plain), strip(logged))
